@@ -18,6 +18,22 @@ def canon(db, n):
     return part, [int(db.is_verified(a)) for a in range(n)]
 
 
+def fresh_path(ops, a, b):
+    """find_path(a, b) asked of a database that has only seen `ops` - no other query in between (queries compress the
+    union-find pointers and could hide stale ones)"""
+    db = EquivalenceDB()
+    for op in ops:
+        if op[0] == "two":
+            db.add_two_way_edge(op[1], op[2])
+        elif op[0] == "one":
+            db.add_one_way_edge(op[1], op[2])
+        elif op[0] == "ver":
+            db.set_verified(op[1])
+        else:
+            db.connect_cycles()
+    return db.find_path(a, b)
+
+
 def run_history(res, n, ops):
     db = EquivalenceDB()
     lines = [f"new {n}"]
@@ -25,7 +41,7 @@ def run_history(res, n, ops):
     hist = {"n": n, "ops": ops}
     marked = set()
     dirty = False  # an edge (of either kind) was added since the last connect_cycles
-    for op in ops:
+    for idx, op in enumerate(ops):
         try:
             if op[0] == "two":
                 db.add_two_way_edge(op[1], op[2]); lines.append(f"two {op[1]} {op[2]}"); dirty = True  # a two-way edge can close a cycle through older one-way edges
@@ -48,6 +64,16 @@ def run_history(res, n, ops):
                 break
         # explanation paths at admissible points
         if not dirty:
+            pairs = [(a, b) for a in range(n) for b in range(n) if a != b and part[a] == part[b]]
+            k = len(lines)  # (position irrelevant for the model: paths do not change its state)
+            for a, b in (pairs[:: max(1, len(pairs) // 3)][:3] if idx % 3 == 0 or idx == len(ops) - 1 else []):
+                try:
+                    p = fresh_path(ops[: idx + 1], a, b)
+                except Exception as exc:
+                    res.fail("find_path-raises", hist, {"a": a, "b": b, "exc": repr(exc), "asked": "without any other query"})
+                    continue
+                lines.append(f"path {a} {b} {','.join(map(str, p))}")
+                exp.append(("path-ok", None, (a, b, list(p))))
             for a in range(n):
                 for b in range(n):
                     if a != b and part[a] == part[b]:
